@@ -136,7 +136,7 @@ def execute(sc, ctx):
             st.world, st.op, st.res = w, op, res
             st.pre_asc, st.post_asc = pre_asc, scen.all_ascmhl_files(w.sandbox)
             A = model.analyze_create(st)
-            if A is None or A.error or A.root_or_ancestor_matches:
+            if A is None or A.error:
                 ctx.probe("analysis_na")
                 return
             memo_by_fmt = {}
